@@ -140,7 +140,9 @@ func (g *t3gen) typeList(u []string) string {
 }
 
 func (g *t3gen) random(stream string, u []string, n int) {
-	prefixes := []string{"deriveEqual", "deriveHash", "d", "", "eq", "deriveÄ"}
+	// prefixes that ARE keywords / predeclared identifiers: the bare prefix and (never) prefix_… exercise the
+	// `token.IsKeyword || types.Universe.Lookup` branch of typesMap.taken
+	prefixes := []string{"deriveEqual", "deriveHash", "d", "", "eq", "deriveÄ", "func", "len", "nil", "string", "go", "int"}
 	for i := 0; i < n; i++ {
 		p := prefixes[g.r.Intn(len(prefixes))]
 		g.st.Prefixs[Esc(p)]++
